@@ -1099,7 +1099,8 @@ class PathEval:
             self.depth -= 1
         outs = [(st_, None) for st_ in falls] + [(st_, v_) for st_, how, v_ in lefts if how == "return"]
         if not outs:
-            raise _Leave("raise")
+            classes = {v_ for _st, how, v_ in lefts if how == "raise"}
+            raise _Leave("raise", next(iter(classes)) if len(classes) == 1 else None)      # what is raised, when every path raises the same
         tr = None
         for st_, _v in outs:
             tr = set(st_.trace) if tr is None else tr & st_.trace
@@ -1149,7 +1150,7 @@ class PathEval:
                     f, l = self.stmt(node, s)
                 except _Leave as lv:
                     # a followed call inside the statement ends in a raise on every path
-                    f, l = [], [(s, "raise", None)]
+                    f, l = [], [(s, "raise", lv.value if lv.how == "raise" else None)]
                 nxt += f
                 lefts += l
             states = nxt
@@ -1506,7 +1507,14 @@ class PathEval:
             return [], [(s, "continue", None)]
         if isinstance(node, ast.Break):
             return [], [(s, "break", None)]
-        if isinstance(node, (ast.Pass, ast.Assert, ast.Import, ast.ImportFrom, ast.Global, ast.Nonlocal)):
+        if isinstance(node, ast.Assert):
+            # an assertion that is false on this sample for sure ends the path in AssertionError; anything else goes on
+            t = self.test(node.test, s)
+            self._poison(s)
+            if t is False:
+                return [], [(s, "raise", "AssertionError")]
+            return [s], []
+        if isinstance(node, (ast.Pass, ast.Import, ast.ImportFrom, ast.Global, ast.Nonlocal)):
             return [s], []
         if isinstance(node, ast.Delete):
             for t_ in node.targets:
